@@ -28,6 +28,13 @@ type RaceCase struct {
 	// BackPressure: BurstRate(0) and a pinned tiny flush rate, so that every
 	// write takes the waiting path of the rate limiter.
 	BackPressure bool `json:"back_pressure,omitempty"`
+	// Fault: an environment fault that makes a flush of the background flusher
+	// fail while the workers run, so that the store's error paths (sticky
+	// error) execute concurrently too. 1: a stray file with the name of the
+	// next primary file appears; 2: a stray directory with the name of the
+	// next index file appears. FaultUS: when, after the workers started.
+	Fault   int `json:"fault,omitempty"`
+	FaultUS int `json:"fault_us,omitempty"`
 }
 
 const (
@@ -35,7 +42,7 @@ const (
 	opCacheSize = "cachesize" // A: new file cache size
 )
 
-const c16Rule = "generated concurrent programs, free-running (no scheduler and no point handler installed, because either would add happens-before edges and hide races): 3-8 goroutines each looping over a drawn list of Put/Get/Has/GetSize/Remove/Flush/whole-store iteration/StorageSize (all four)/SetFileCacheSize/explicit primary GC calls (index GC cycles come from the store's own collector), on a started store with 0.2-3 ms sync and GC intervals (periodic flusher and both collectors running) and tiny file-size limits so roll-over and GC paths execute; built with -race -tags verif. " +
+const c16Rule = "generated concurrent programs, free-running (no scheduler and no point handler installed, because either would add happens-before edges and hide races): 3-8 goroutines each looping over a drawn list of Put/Get/Has/GetSize/Remove/Flush/whole-store iteration/StorageSize (all four)/SetFileCacheSize/explicit primary GC calls (index GC cycles come from the store's own collector), on a started store with 0.2-3 ms sync and GC intervals (periodic flusher and both collectors running) and tiny file-size limits so roll-over and GC paths execute; in 2 of 7 programs an environment fault (a stray file at the next primary file name / a stray directory at the next index file name) makes a background flush fail midway so that the sticky-error paths run concurrently as well; built with -race -tags verif. " +
 	"oracle = the Go race detector: every report is parsed into a signature (the innermost module frame of each of the two conflicting accesses, unordered) and is a violation; " +
 	"non-trivial = the program has a writer, an explicit or periodic flusher, and at least two of {explicit primary GC caller, storage-size query, cache resize, iteration} running concurrently; distinct = distinct canonical JSON of the case"
 
@@ -75,6 +82,10 @@ func genRace(t *rapid.T) RaceCase {
 	c.SyncUS = []int{200, 500, 1000, 3000}[rapid.IntRange(0, 3).Draw(t, "sync")]
 	c.GCUS = []int{200, 500, 1000, 3000, 0}[rapid.IntRange(0, 4).Draw(t, "gc")]
 	c.BackPressure = weighted(t, "backpressure", []int{3, 1}) == 1
+	c.Fault = weighted(t, "fault", []int{5, 1, 1})
+	if c.Fault > 0 {
+		c.FaultUS = []int{0, 300, 1000, 3000}[rapid.IntRange(0, 3).Draw(t, "faultus")]
+	}
 	return c
 }
 
@@ -120,6 +131,30 @@ func runRace(c RaceCase) {
 	}
 	s.Start()
 	var wg sync.WaitGroup
+	if c.Fault > 0 {
+		wg.Add(1)
+		go func() {
+			defer wg.Done()
+			time.Sleep(time.Duration(c.FaultUS) * time.Microsecond)
+			base := dataBase
+			if c.Fault == 2 {
+				base = idxBase
+			}
+			nums := numberedFiles(dir, base)
+			next := uint32(0)
+			if len(nums) > 0 {
+				next = nums[len(nums)-1] + 1
+			}
+			for n := next; n < next+3; n++ {
+				name := filepath.Join(dir, fmt.Sprintf("%s.%d", base, n))
+				if c.Fault == 2 {
+					os.Mkdir(name, 0o755)
+				} else {
+					os.WriteFile(name, []byte("stray"), 0o644)
+				}
+			}
+		}()
+	}
 	// Index GC cycles are only run by the store's own collector goroutine
 	// here: the verif-tagged VerifGC wrapper would run a second cycle next to
 	// it, which production code never does (the cycle keeps its resume cursor
@@ -268,7 +303,7 @@ func TestC16(t *testing.T) {
 		// The detector writes the report before the racing goroutine goes on;
 		// everything of this case has finished, so the reports are complete.
 		reps := newReports()
-		ev.Record(c, raceNonTrivial(c), fmt.Sprintf("primary=%s", c.Cfg.Primary), fmt.Sprintf("back-pressure=%v", c.BackPressure))
+		ev.Record(c, raceNonTrivial(c), fmt.Sprintf("primary=%s", c.Cfg.Primary), fmt.Sprintf("back-pressure=%v", c.BackPressure), fmt.Sprintf("fault=%d", c.Fault))
 		for _, r := range reps {
 			v := viol(r.sig, 0, "%s", r.text)
 			if len(v.Detail) > 3000 {
